@@ -22,7 +22,12 @@ def gen(rng, tier):
                 ops.append([2, S])
             else:
                 a, b = rng.randrange(n), rng.randrange(n); amt = rng.choice([1, 2, 7, 2 ** 65])
-                if bad: amt, a = rng.choice([(0, a), (-1, a), (1, n)])
+                if bad:
+                    how = rng.choice(["zero", "neg", "sender", "receiver", "receiver"])
+                    if how == "zero": amt = 0
+                    elif how == "neg": amt = -1
+                    elif how == "sender": a = n; amt = 1
+                    else: b = n + rng.randint(0, 1)          # a valid sender and amount, an unknown receiver
                 ops.append([3, a, b, amt])
         conf = common.confusable_sets(G["names"])
         if conf and rng.random() < 0.7:      # two different firing sets whose names join to the same string, both in one history
